@@ -4,6 +4,7 @@ From Coq Require Import List NArith ZArith Bool Arith.
 From RecordUpdate Require Import RecordUpdate.
 From JV Require Import Bytes Msg SrvModel SrvLemmas SrvBasics SrvC07 SrvC01 SrvHist SrvC01b.
 From JV Require SrvNoCrash SrvC03.
+From JV Require Import SrvC08m SrvEventually SrvProgress.
 Import ListNotations.
 
 (* 1. tasks.responses: one element per call, in request order, with the call's id and body; an id-less member
@@ -301,3 +302,186 @@ Theorem c01_all_answered_at_rest : forall c tr s oss, run (init_of c) tr = Some 
     (responses (unit_tasks s u) = [] -> countb (is_deliver u) tr = 0).
 Proof. exact SrvC01b.c01_all_answered_at_rest. Qed.
 Print Assumptions c01_all_answered_at_rest.
+
+(* 13. from 'at quiescence' to 'eventually' (srv/SrvEventually.v).  A release label (is_rel) is a goroutine of the server
+       passing a scheduling point; every window of one strictly decreases the measure mu_rel (props/C08.v), from every
+       reachable state.  [eventually s P]: P holds in the last state of every MAXIMAL release-only run from s (no
+       action of the environment in between); such runs exist and none is longer than mu_rel s.  A release-only run
+       is maximal exactly when it has reached a quiescent state. *)
+Theorem c01_eventually_spec : forall s P, eventually s P <->
+  (exists tr s' oss, run s tr = Some (s', oss) /\ Forall (fun l => is_rel l = true) tr /\ length tr <= mu_rel s /\
+     quiescent s' = true) /\
+  (forall tr s' oss, run s tr = Some (s', oss) -> Forall (fun l => is_rel l = true) tr ->
+     length tr <= mu_rel s /\ (quiescent s' = true -> P tr s' oss)).
+Proof. exact eventually_spec. Qed.
+Print Assumptions c01_eventually_spec.
+
+Theorem c01_quiescent_iff_maximal : forall s, quiescent s = true <-> forall l, is_rel l = true -> step s l = None.
+Proof. exact quiescent_iff_maximal. Qed.
+Print Assumptions c01_quiescent_iff_maximal.
+
+(* every release-only run from a reachable state is short and is a prefix of a maximal one *)
+Theorem c01_rel_run_extends : forall c s tr s1 oss1, reach c s -> run s tr = Some (s1, oss1) ->
+  Forall (fun l => is_rel l = true) tr ->
+  length tr <= mu_rel s /\
+  exists tr2 s' oss2, run s (tr ++ tr2) = Some (s', oss1 ++ oss2) /\ Forall (fun l => is_rel l = true) (tr ++ tr2) /\
+    length (tr ++ tr2) <= mu_rel s /\ quiescent s' = true.
+Proof. exact rel_run_extends. Qed.
+Print Assumptions c01_rel_run_extends.
+
+(* what is still unfinished at a quiescent point.  held_in_handler s t: the handler of t has been entered and has not
+   returned, or t is queued for a handler slot while every slot is taken *)
+Theorem c01_held_in_handler_spec : forall s t,
+  held_in_handler s t <-> t_st t = TRunning \/ (t_st t = TWaiting /\ sem_free s = 0).
+Proof. exact (fun s t => conj (fun x => x) (fun x => x)). Qed.
+Print Assumptions c01_held_in_handler_spec.
+
+Theorem c01_quiescent_unfinished : forall c s, reach c s -> quiescent s = true ->
+  (forall u un, nth_error (units s) u = Some un -> u_st un <> UFinished ->
+     (u_st un = URunning /\
+      exists k t, nth_error (tasks s) k = Some t /\ t_unit t = u /\ held_in_handler s t) \/
+     ((u_st un = UAtBarrier \/ u_st un = UBarrierWait) /\ dp s = DBarrierWait u /\ 0 < nbar s /\
+      exists k t, nth_error (tasks s) k = Some t /\ is_note t = true /\ runnable t = true /\ t_unit t < u /\
+        held_in_handler s t)) /\
+  (inq s <> [] ->
+     exists u k t, dp s = DBarrierWait u /\ 0 < nbar s /\ nth_error (tasks s) k = Some t /\ is_note t = true /\
+       runnable t = true /\ t_unit t < u /\ held_in_handler s t) /\
+  (forall k t, nth_error (tasks s) k = Some t -> held_in_handler s t -> 0 < cf_K c ->
+     exists j tj, nth_error (tasks s) j = Some tj /\ t_st tj = TRunning).
+Proof. exact quiescent_unfinished. Qed.
+Print Assumptions c01_quiescent_unfinished.
+
+(* at rest (quiescent, no handler executing, Concurrency >= 1) everything has finished, running or stopped *)
+Theorem c01_quiescent_at_rest : forall c s, reach c s -> quiescent s = true -> 0 < cf_K c ->
+  (forall k t, nth_error (tasks s) k = Some t -> t_st t <> TRunning) ->
+  inq s = [] /\ (forall u un, nth_error (units s) u = Some un -> u_st un = UFinished) /\
+  (forall k t, nth_error (tasks s) k = Some t -> finished t = true).
+Proof. exact quiescent_at_rest. Qed.
+Print Assumptions c01_quiescent_at_rest.
+
+(* c01_answered c tr0 oss0 tr s' oss, spelled out: tr0/oss0 = the history so far, tr/oss = the release-only run *)
+Theorem c01_answered_spec : forall c tr0 oss0 tr s' oss, c01_answered c tr0 oss0 tr s' oss <->
+  ((forall u un, nth_error (units s') u = Some un -> u_st un <> UFinished ->
+      (u_st un = URunning /\
+       exists k t, nth_error (tasks s') k = Some t /\ t_unit t = u /\ held_in_handler s' t) \/
+      ((u_st un = UAtBarrier \/ u_st un = UBarrierWait) /\ dp s' = DBarrierWait u /\ 0 < nbar s' /\
+       exists k t, nth_error (tasks s') k = Some t /\ is_note t = true /\ runnable t = true /\ t_unit t < u /\
+         held_in_handler s' t)) /\
+   (inq s' <> [] ->
+      exists u k t, dp s' = DBarrierWait u /\ 0 < nbar s' /\ nth_error (tasks s') k = Some t /\ is_note t = true /\
+        runnable t = true /\ t_unit t < u /\ held_in_handler s' t) /\
+   (forall k t, nth_error (tasks s') k = Some t -> held_in_handler s' t -> 0 < cf_K c ->
+      exists j tj, nth_error (tasks s') j = Some tj /\ t_st tj = TRunning)) /\
+  ((forall k t, nth_error (tasks s') k = Some t -> t_st t <> TRunning) -> 0 < cf_K c ->
+     inq s' = [] /\ (forall k t, nth_error (tasks s') k = Some t -> finished t = true) /\
+     forall u, u < length (units s') ->
+       ufin s' u = true /\
+       (responses (unit_tasks s' u) <> [] -> countb (is_deliver u) (tr0 ++ tr) = 1) /\
+       (responses (unit_tasks s' u) = [] -> countb (is_deliver u) (tr0 ++ tr) = 0)) /\
+  (unit_sends (tr0 ++ tr) (oss0 ++ oss) =
+     map (fun u => (u, ubatch s' u, responses (unit_tasks s' u))) (delivered (tr0 ++ tr)) /\
+   NoDup (delivered (tr0 ++ tr)) /\
+   (forall u, In u (delivered (tr0 ++ tr)) <-> ufin s' u = true /\ responses (unit_tasks s' u) <> [])).
+Proof. exact (fun c tr0 oss0 tr s' oss => conj (fun x => x) (fun x => x)). Qed.
+Print Assumptions c01_answered_spec.
+
+(* after ANY history tr0 (environment actions, partial schedules), if the environment does nothing more, the server
+   reaches within mu_rel s windows a state in which the only unfinished work is held by handlers that have not
+   returned; if none is executing there, every accepted message has been answered: every unit finished, each
+   non-silent one delivered exactly once (with the responses of its tasks: the output history), each silent one never *)
+Theorem c01_eventually_answered : forall c tr0 s oss0, run (init_of c) tr0 = Some (s, oss0) ->
+  eventually s (c01_answered c tr0 oss0).
+Proof. exact SrvEventually.c01_eventually_answered. Qed.
+Print Assumptions c01_eventually_answered.
+
+(* REFUTED with 'no handler is executing' as a hypothesis on the state s BEFORE the release-only run: a request that
+   was received but not yet entered enters its handler during the run, and its return is the environment's move *)
+Theorem c01_eventually_answered_naive_refuted :
+  exists s tr s' oss, reach ex_cfg s /\ running s = true /\ 0 < cf_K ex_cfg /\
+    forallb (fun t => match t_st t with TRunning => false | _ => true end) (tasks s) = true /\
+    run s tr = Some (s', oss) /\ Forall (fun l => is_rel l = true) tr /\ quiescent s' = true /\
+    map u_st (units s') = [URunning] /\ map t_st (tasks s') = [TRunning].
+Proof. exact SrvEventually.c01_eventually_answered_naive_refuted. Qed.
+Print Assumptions c01_eventually_answered_naive_refuted.
+
+(* 14. with the handlers returning (srv/SrvProgress.v).  A PROGRESS label is a release label or a handler return (LGate):
+       what the server does on its own plus the one obligation of the environment (every handler it was given returns);
+       no new input, no API call.  Every window of a progress label strictly decreases the measure mu_prog, from every
+       reachable state; a progress run is maximal exactly when it is AT REST (quiescent, no handler executing).
+       [eventually_prog s P]: P holds in the last state of every maximal progress run from s; such runs exist and none
+       is longer than mu_prog s. *)
+Theorem c01_is_prog_spec : forall l, is_prog l = true <-> is_rel l = true \/ exists p o, l = LGate p o.
+Proof. exact is_prog_spec. Qed.
+Print Assumptions c01_is_prog_spec.
+
+Theorem c01_at_rest_spec : forall s, at_rest s = true <->
+  quiescent s = true /\ forall k t, nth_error (tasks s) k = Some t -> t_st t <> TRunning.
+Proof. exact at_rest_spec. Qed.
+Print Assumptions c01_at_rest_spec.
+
+Theorem c01_prog_step_decreases : forall c s l s' os, reach c s -> is_prog l = true -> step s l = Some (s', os) ->
+  mu_prog s' < mu_prog s.
+Proof. exact rel_step_decreases_p. Qed.
+Print Assumptions c01_prog_step_decreases.
+
+Theorem c01_mu_prog_spec : forall s, mu_prog s =
+  wsum ptw (tasks s) +
+  (prdw (rd s) + wsum pfw (ch_in s) + dpw (dp s) + wsum pew (inq s) + wsum uw (units s) + wsum cw (cbs s) +
+   wsum ow (ops s) + (if running s then 2 else 0)).
+Proof. exact mu_prog_spec. Qed.
+Print Assumptions c01_mu_prog_spec.
+
+(* the weights that differ from those of mu_rel (props/C08.v: c08_weights_spec) *)
+Theorem c01_prog_weights_spec :
+  (forall t, ptw t = match t_st t with TAtAcquire => 3 | TWaiting | TRunning => 2 | TAtHandled _ => 1 | TDone _ | TSkip => 0 end) /\
+  (forall bm, pew bm = 6 * Nat.max 1 (length (snd bm))) /\
+  (forall f, pfw f = match f with
+                     | FMsg (InMsgs _ ms) | FMsgEOF (InMsgs _ ms) => 1 + 6 * Nat.max 1 (length ms)
+                     | _ => 1
+                     end) /\
+  (forall r, prdw r = match r with RHold f => pfw f | _ => 0 end).
+Proof. exact prog_weights_spec. Qed.
+Print Assumptions c01_prog_weights_spec.
+
+Theorem c01_at_rest_iff_maximal : forall c s, reach c s ->
+  (at_rest s = true <-> forall l, is_prog l = true -> step s l = None).
+Proof. exact at_rest_iff_maximal. Qed.
+Print Assumptions c01_at_rest_iff_maximal.
+
+Theorem c01_prog_run_extends : forall c s tr s1 oss1, reach c s -> run s tr = Some (s1, oss1) ->
+  Forall (fun l => is_prog l = true) tr ->
+  length tr <= mu_prog s /\
+  exists tr2 s' oss2, run s (tr ++ tr2) = Some (s', oss1 ++ oss2) /\ Forall (fun l => is_prog l = true) (tr ++ tr2) /\
+    length (tr ++ tr2) <= mu_prog s /\ at_rest s' = true.
+Proof. exact prog_run_extends. Qed.
+Print Assumptions c01_prog_run_extends.
+
+Theorem c01_eventually_prog_spec : forall s P, eventually_prog s P <->
+  (exists tr s' oss, run s tr = Some (s', oss) /\ Forall (fun l => is_prog l = true) tr /\ length tr <= mu_prog s /\
+     at_rest s' = true) /\
+  (forall tr s' oss, run s tr = Some (s', oss) -> Forall (fun l => is_prog l = true) tr ->
+     length tr <= mu_prog s /\ (at_rest s' = true -> P tr s' oss)).
+Proof. exact eventually_prog_spec. Qed.
+Print Assumptions c01_eventually_prog_spec.
+
+Theorem c01_all_answered_spec : forall tr0 oss0 tr s' oss, c01_all_answered tr0 oss0 tr s' oss <->
+  inq s' = [] /\ (forall k t, nth_error (tasks s') k = Some t -> finished t = true) /\
+  (forall u, u < length (units s') ->
+     ufin s' u = true /\
+     (responses (unit_tasks s' u) <> [] -> countb (is_deliver u) (tr0 ++ tr) = 1) /\
+     (responses (unit_tasks s' u) = [] -> countb (is_deliver u) (tr0 ++ tr) = 0)) /\
+  unit_sends (tr0 ++ tr) (oss0 ++ oss) =
+    map (fun u => (u, ubatch s' u, responses (unit_tasks s' u))) (delivered (tr0 ++ tr)) /\
+  NoDup (delivered (tr0 ++ tr)) /\
+  (forall u, In u (delivered (tr0 ++ tr)) <-> u < length (units s') /\ responses (unit_tasks s' u) <> []).
+Proof. exact (fun tr0 oss0 tr s' oss => conj (fun x => x) (fun x => x)). Qed.
+Print Assumptions c01_all_answered_spec.
+
+(* after ANY history tr0, if every handler that is (or will be) entered returns and nothing new arrives, then within
+   mu_prog s windows the server is at rest with every accepted message answered: nothing queued, every task and unit
+   finished, each non-silent unit delivered exactly once with the responses of its tasks, each silent one never
+   (Concurrency >= 1; with Concurrency = 0 nothing ever runs: props/C08.v, c08_terminates_K0_refuted) *)
+Theorem c01_eventually_all_answered : forall c tr0 s oss0, run (init_of c) tr0 = Some (s, oss0) -> 0 < cf_K c ->
+  eventually_prog s (c01_all_answered tr0 oss0).
+Proof. exact SrvProgress.c01_eventually_all_answered. Qed.
+Print Assumptions c01_eventually_all_answered.
